@@ -812,6 +812,18 @@ func (c *SpecCtx) call(e *SCall) Val {
 		x.S.DeclareFun("errors_is", []string{"Int", "Int"}, "Bool")
 		x.S.Axiom("errors_is", []string{"errors_is"}, "(forall ((e Int) (t Int)) (! (and (=> (and (= e t)) (errors_is e t)) (=> (and (= e 0) (not (= t 0))) (not (errors_is e t)))) :pattern ((errors_is e t))))")
 		return specVal("(errors_is "+a.S+" "+b.S+")", "Bool")
+	case "mk_nilptr":
+		return Val{S: "(mk_ptr 0 0)", Bltn: "Ptr"}
+	case "fid":
+		id, ok := e.Args[0].(*SIdent)
+		if !ok || c.pkg == nil {
+			sfail("fid needs a function name")
+		}
+		fn := x.lookupFunc(c.pkg, id.Name)
+		if fn == nil {
+			sfail("fid: unknown function %s", id.Name)
+		}
+		return specVal(fmt.Sprint(x.funcID(fn)), "Int")
 	case "ufn":
 		// ufn(name, ResultType, args...): uninterpreted spec function of the
 		// argument values at the current heap version
